@@ -227,6 +227,19 @@ def calling_fails(ctx, case):
         if vf is not None and vi is not None and np.all(np.isfinite(vf)) and (vi.shape != vf.shape or not ok(vf, vi)):
             return 'calling-int-%s: nthderiv.%s at the integer points %s given as an int array differs from the float call (n=%d): %s vs %s' % (
                 case['fn'], case['fn'], ipts.tolist(), n, vi.tolist(), vf.tolist())
+    # LARGE integer points given in an integer type (an intermediate integer power wraps around in int64 long before the float
+    # value overflows): the same values as at the float points, relative
+    big = np.array([k for k in (999, 65535, 99999) if _in_dom(dom, k)])
+    if big.size and n >= 1 and case['fn'] not in ('reciprocal',):
+        try:
+            with np.errstate(all='ignore'):
+                vfb = np.array(_call(case, big.astype(float), n), dtype=float)
+                vib = np.array(_call(case, big.astype(np.int64), n), dtype=float)
+        except Exception:
+            vfb = vib = None
+        if vfb is not None and np.all(np.isfinite(vfb)) and (vib.shape != vfb.shape or not np.allclose(vib, vfb, rtol=1e-9, atol=0, equal_nan=True)):
+            return 'calling-bigint-%s: nthderiv.%s at the integer points %s given as an int64 array differs from the float call (n=%d): %s vs %s' % (
+                case['fn'], case['fn'], big.tolist(), n, vib.tolist(), vfb.tolist())
     # the points given as a Python list / nested list (NumPy and SciPy accept array_like points): the same values as for the array
     for pts, lab in ((xs.tolist(), 'list'), ([xs.tolist()], 'nested list'), (tuple(xs.tolist()), 'tuple')):
         try:
